@@ -253,8 +253,17 @@ def check_layer_lookup_names(repo: Repo, res: Result) -> None:
             res.undecide("C05.R5", key, why, where(s.fi, s.node))
         elif verdict == "unclassified":
             res.observe(f"C05.R5 unclassified (not armed) {s.fi.relpath}::{s.fi.qualname}: `{norm(s.node, 60)}` - {why}")
-    for f, node, var in single_level_parent_tests(list(reach)):
-        res.add("C05.R5", repo.key(f, stmt_of(node)) + " [direct parent only]", False, f"`{norm(node, 80)}` compares a listed module with the direct parent of `{var}` only: a module two or more levels below a listed module is not attributed to its layer (a layer is its listed modules and *all* their descendants)", where(f, node), kind="structural")
+    # every ancestor (the top-level one included) and the name itself are tested
+    from .c05_views import dview, family
+    from .c05_walk import check_walk
+
+    view = dview(repo, lookup, lmap, family(repo, lmap), tag="lmap")
+    verdict, detail = check_walk(repo, view)
+    construct = f"{lookup.relpath}::LayerMapping.get_layer_for_module_name::every ancestor is tested"
+    if verdict == "undecided":
+        res.undecide("C05.R5", construct, detail, where(lookup, lookup.node))
+    else:
+        res.add("C05.R5", construct, verdict != "violated", detail, where(lookup, lookup.node), kind="flow")
     res.add("C05.R5", "fixture::engine/fixtures/name_ops.py", True, names.fixture_selfcheck(), nontrivial=False)
     res.analysed["layer_lookup_functions"] = len(reach)
     res.analysed["layer_lookup_name_sites"] = n
